@@ -543,7 +543,7 @@ func wsCase(rt *rapid.T, rec *vt.Rec, lib string) {
 		err error
 	}
 	got := make(chan rd, n+2)
-	go func() {
+	reader := func() {
 		for i := 0; i < n+1; i++ {
 			m, err := r.ReadMessage()
 			got <- rd{m, err}
@@ -551,13 +551,28 @@ func wsCase(rt *rapid.T, rec *vt.Rec, lib string) {
 				return
 			}
 		}
-	}()
+	}
+	// The writer may be gone before the reader gets round to reading (a host that sends its last update and exits, a
+	// server that hangs up with replies still in flight): what was written without error still arrives, then the end.
+	total := 0
+	for _, m := range msgs {
+		total += len(canonMsg(m))
+	}
+	closeEarly := total < 48<<10 && rapid.IntRange(0, 2).Draw(rt, "writerClosesBeforeTheReaderReads") == 0
+	if !closeEarly {
+		go reader()
+	}
 	for i, m := range msgs {
 		if err := w.WriteMessage(m); err != nil {
 			rt.Fatalf("%s %s: WriteMessage #%d: %v", lib, dir, i+1, err)
 		}
 	}
 	wshim.Flush()
+	if closeEarly {
+		w.Close()
+		time.Sleep(20 * time.Millisecond)
+		go reader()
+	}
 	for i, want := range msgs {
 		var x rd
 		select {
@@ -593,8 +608,8 @@ func wsCase(rt *rapid.T, rec *vt.Rec, lib string) {
 			minChunk = c
 		}
 	}
-	rec.Case(fmt.Sprintf("ws|%s<-%s|%s|%d|%v|%d", lib, clientLib, dir, n, readPat, batch), n >= 2 && (batch > 1 || minChunk < 64), []string{"ws:" + lib, "ws:server=" + lib + ",client=" + clientLib, fmt.Sprintf("ws:batched:%v", batch > 1), fmt.Sprintf("ws:split:%v", minChunk < 64)}, func() interface{} {
-		return map[string]interface{}{"codec": "websocket/" + lib, "direction": dir, "messages": n, "read_pattern": readPat, "frames_per_tcp_write": batch}
+	rec.Case(fmt.Sprintf("ws|%s<-%s|%s|%d|%v|%d", lib, clientLib, dir, n, readPat, batch), n >= 2 && (batch > 1 || minChunk < 64), []string{"ws:" + lib, "ws:server=" + lib + ",client=" + clientLib, fmt.Sprintf("ws:batched:%v", batch > 1), fmt.Sprintf("ws:split:%v", minChunk < 64), fmt.Sprintf("ws:writer-closed-before-reading:%v", closeEarly)}, func() interface{} {
+		return map[string]interface{}{"codec": "websocket/" + lib, "direction": dir, "messages": n, "read_pattern": readPat, "frames_per_tcp_write": batch, "writer_closed_before_the_reader_read": closeEarly}
 	})
 }
 
